@@ -4,10 +4,12 @@ import (
 	"io"
 	"os"
 	"path/filepath"
+	"sync"
 	"time"
 )
 
 type memFS struct {
+	mu    sync.RWMutex // Guards files.
 	files map[string]*memFile
 }
 
@@ -21,6 +23,8 @@ func (fs *memFS) OpenFile(name string, flag int, perm os.FileMode) (File, error)
 		// The database doesn't currently use O_APPEND.
 		return nil, errAppendModeNotSupported
 	}
+	fs.mu.Lock()
+	defer fs.mu.Unlock()
 	f := fs.files[name]
 	if f == nil {
 		// The file doesn't exist.
@@ -34,28 +38,42 @@ func (fs *memFS) OpenFile(name string, flag int, perm os.FileMode) (File, error)
 		}
 		fs.files[name] = f
 	} else {
+		f.mu.Lock()
 		if (flag & os.O_TRUNC) != 0 {
 			f.size = 0
 			f.buf = nil
 		}
 		f.refs += 1
+		f.mu.Unlock()
 	}
 	return &seekableMemFile{memFile: f}, nil
 }
 
 func (fs *memFS) CreateLockFile(name string, perm os.FileMode) (LockFile, bool, error) {
+	fs.mu.Lock()
+	defer fs.mu.Unlock()
 	f, exists := fs.files[name]
-	if f != nil && f.refs > 0 {
-		return nil, false, os.ErrExist
+	if f != nil {
+		f.mu.Lock()
+		defer f.mu.Unlock()
+		if f.refs > 0 {
+			return nil, false, os.ErrExist
+		}
+		f.refs += 1
+		return f, exists, nil
 	}
-	_, err := fs.OpenFile(name, os.O_CREATE, perm)
-	if err != nil {
-		return nil, false, err
+	f = &memFile{
+		name: name,
+		perm: perm,
+		refs: 1,
 	}
-	return fs.files[name], exists, nil
+	fs.files[name] = f
+	return f, exists, nil
 }
 
 func (fs *memFS) Stat(name string) (os.FileInfo, error) {
+	fs.mu.RLock()
+	defer fs.mu.RUnlock()
 	if f, ok := fs.files[name]; ok {
 		return f, nil
 	}
@@ -63,6 +81,8 @@ func (fs *memFS) Stat(name string) (os.FileInfo, error) {
 }
 
 func (fs *memFS) Remove(name string) error {
+	fs.mu.Lock()
+	defer fs.mu.Unlock()
 	if _, ok := fs.files[name]; ok {
 		delete(fs.files, name)
 		return nil
@@ -71,10 +91,14 @@ func (fs *memFS) Remove(name string) error {
 }
 
 func (fs *memFS) Rename(oldpath, newpath string) error {
+	fs.mu.Lock()
+	defer fs.mu.Unlock()
 	if f, ok := fs.files[oldpath]; ok {
 		delete(fs.files, oldpath)
 		fs.files[newpath] = f
+		f.mu.Lock()
 		f.name = newpath
+		f.mu.Unlock()
 		return nil
 	}
 	return os.ErrNotExist
@@ -82,6 +106,8 @@ func (fs *memFS) Rename(oldpath, newpath string) error {
 
 func (fs *memFS) ReadDir(dir string) ([]os.DirEntry, error) {
 	dir = filepath.Clean(dir)
+	fs.mu.RLock()
+	defer fs.mu.RUnlock()
 	var entries []os.DirEntry
 	for name, f := range fs.files {
 		if filepath.Dir(name) == dir {
@@ -98,6 +124,7 @@ func (fs *memFS) MkdirAll(path string, perm os.FileMode) error {
 }
 
 type memFile struct {
+	mu   sync.RWMutex // Guards the fields below, file handles share the memFile.
 	name string
 	perm os.FileMode
 	buf  []byte
@@ -106,6 +133,8 @@ type memFile struct {
 }
 
 func (f *memFile) Close() error {
+	f.mu.Lock()
+	defer f.mu.Unlock()
 	if f.refs == 0 {
 		return os.ErrClosed
 	}
@@ -117,10 +146,15 @@ func (f *memFile) Unlock() error {
 	if err := f.Close(); err != nil {
 		return err
 	}
-	return Mem.Remove(f.name)
+	f.mu.RLock()
+	name := f.name
+	f.mu.RUnlock()
+	return Mem.Remove(name)
 }
 
 func (f *memFile) ReadAt(p []byte, off int64) (int, error) {
+	f.mu.RLock()
+	defer f.mu.RUnlock()
 	if f.refs == 0 {
 		return 0, os.ErrClosed
 	}
@@ -137,6 +171,8 @@ func (f *memFile) ReadAt(p []byte, off int64) (int, error) {
 }
 
 func (f *memFile) WriteAt(p []byte, off int64) (int, error) {
+	f.mu.Lock()
+	defer f.mu.Unlock()
 	if f.refs == 0 {
 		return 0, os.ErrClosed
 	}
@@ -149,6 +185,8 @@ func (f *memFile) WriteAt(p []byte, off int64) (int, error) {
 }
 
 func (f *memFile) Stat() (os.FileInfo, error) {
+	f.mu.RLock()
+	defer f.mu.RUnlock()
 	if f.refs == 0 {
 		return f, os.ErrClosed
 	}
@@ -156,6 +194,8 @@ func (f *memFile) Stat() (os.FileInfo, error) {
 }
 
 func (f *memFile) Sync() error {
+	f.mu.RLock()
+	defer f.mu.RUnlock()
 	if f.refs == 0 {
 		return os.ErrClosed
 	}
@@ -173,6 +213,8 @@ func (f *memFile) truncate(size int64) {
 }
 
 func (f *memFile) Truncate(size int64) error {
+	f.mu.Lock()
+	defer f.mu.Unlock()
 	if f.refs == 0 {
 		return os.ErrClosed
 	}
@@ -181,11 +223,15 @@ func (f *memFile) Truncate(size int64) error {
 }
 
 func (f *memFile) Name() string {
+	f.mu.RLock()
+	defer f.mu.RUnlock()
 	_, name := filepath.Split(f.name)
 	return name
 }
 
 func (f *memFile) Size() int64 {
+	f.mu.RLock()
+	defer f.mu.RUnlock()
 	return f.size
 }
 
@@ -214,6 +260,8 @@ func (f *memFile) Info() (os.FileInfo, error) {
 }
 
 func (f *memFile) Slice(start int64, end int64) ([]byte, error) {
+	f.mu.RLock()
+	defer f.mu.RUnlock()
 	if f.refs == 0 {
 		return nil, os.ErrClosed
 	}
@@ -247,6 +295,8 @@ func (f *seekableMemFile) Write(p []byte) (int, error) {
 }
 
 func (f *seekableMemFile) Seek(offset int64, whence int) (int64, error) {
+	f.mu.RLock()
+	defer f.mu.RUnlock()
 	if f.refs == 0 {
 		return 0, os.ErrClosed
 	}
